@@ -4,7 +4,7 @@ from harness import classify_common as K
 from harness import gen_classify as G
 
 PROP = 'C02'
-MODELS = ['Model/ClassifyData.vo', 'Model/DepthView.vo']   # .vo files the generated case files import
+MODELS = ['Model/ClassifyData.vo', 'Model/DepthView.vo', 'Model/ClassifyCommand.vo']   # .vo files the generated case files import
 KEEP = {'C02'}
 
 # Witness of the known finding C02/duration-off-by-one (Refuted/C02.v): a 3-step storm overlapping a
